@@ -240,6 +240,9 @@ impl Property for C18 {
             return Verdict::Discard("known-domain: block reference inside a quote or list item".into());
         }
         // cycles among notes: known-finding domain
+        if !feature_on("doc_level_include") && m.doc_includes.iter().any(|(_, v)| v.iter().any(|t| lib.contains_key(t))) {
+            return Verdict::Discard("known-domain: a note is included by a block reference that precedes any heading".into());
+        }
         let has_cycle = {
             // is some note reachable from itself through includes?
             let mut inc: BTreeMap<String, BTreeSet<String>> = BTreeMap::new();
@@ -309,6 +312,17 @@ impl Property for C18 {
                 format!("c18|{}", kind),
                 format!("listed paths differ from the model: missing {:?}\nnot real {:?}\n{}", missing, extra, dump(&lib)),
             );
+        }
+        // completeness, stated on its own: every heading outside lists and quotes ends a listed path
+        let ends: BTreeSet<(String, usize)> = got.iter().map(|(_, k, l)| (k.clone(), *l)).collect();
+        for h in &m.hs {
+            if !ends.contains(&(h.key.clone(), h.line)) {
+                return Verdict::fail(
+                    "c18|heading-unlisted",
+                    format!("heading {:?} of note {} (line {}) is the last element of no listed path
+{}", h.text, h.key, h.line, dump(&lib)),
+                );
+            }
         }
         // ranks
         let occ = model::link_occurrences(&lib);
